@@ -4,9 +4,9 @@ From V Require Import Crash.Storage Crash.StorageProofs Crash.Protocol Crash.Toy
   Crash.Refuted Crash.Progress.
 From Coq Require Import Lia.
 
-Definition cfE := mkCfg 2 4 false 0.
+Definition cfE := mkCfg 2 4 false 0 false.
 Definition opsE := [OVal 0 [1; 2; 3]; OPre 0 [9]; OVal 0 [4]; OPre 0 [8]; OFlush FTx 50;
-                    OSyncStart; OSyncV; OSyncTx; OFlush FCm 60; OSyncC; OVal 0 [5; 5]; OPre 0 [7]; OFlush FTx 1000].
+                    OSyncStart; OSyncV 0; OSyncTx; OFlush FCm 60; OSyncC; OVal 0 [5; 5]; OPre 0 [7]; OFlush FTx 1000; OFlush (FVal 0) 100].
 Definition sE := get (run Hc (init Hc cfE 1) opsE) (init Hc cfE 1).
 Lemma runE : run Hc (init Hc cfE 1) opsE = Ok sE. Proof. vm_compute. reflexivity. Qed.
 
@@ -41,5 +41,6 @@ Proof. vm_compute. repeat split; congruence. Qed.
 
 (* a recovered state with a backlog (precommitted > committed), idle *)
 Example ex_backlog :
-  exists s', recover Hc cfE (img_tx sE) = Ok s' /\ phase_ s' = PIdle /\ committed s' < precommitted s'.
-Proof. eexists. split; [vm_compute; reflexivity|]. vm_compute. split; reflexivity. Qed.
+  crash sE (img_os sE) /\
+  exists s', recover Hc cfE (img_os sE) = Ok s' /\ phase_ s' = PIdle /\ committed s' < precommitted s'.
+Proof. split; [apply crash_os|]. eexists. split; [vm_compute; reflexivity|]. vm_compute. split; reflexivity. Qed.
